@@ -7,6 +7,11 @@ them).  The victim's stream is valid traffic with corruptions; the siblings' str
 socket also fails (fault sequences): sends fail or would block once a reply is owed, and the peer hangs up, resets
 or keeps talking, reported by select in the same wake-up or in successive ones.  Optionally a second connection
 misbehaves too, readable in the same wake-up as the first or in a later one; clauses (iv)/(v) apply to each.
+Optionally the victim's peer flags TCP urgent data: select reports the victim in its EXCEPTIONAL set, together with its
+in-band bytes / FIN being readable in the same wake-up or on its own.  Optionally the controller runs with the Nicira
+extension component loaded (pox.openflow.nicira: its own OFPT_VENDOR unpacker in of_01's table, its handlers on the
+connections) and the traffic contains Nicira vendor messages (pvf/ref/c10_nx.py, from nicira-ext.h) with the same
+single-field corruptions.
 
 Oracle, clause by clause (DESIGN.md section 4, C10):
  (i)   every wake-up of the loop returns within a deterministic line budget (sys.monitoring LINE events);
@@ -23,11 +28,14 @@ Oracle, clause by clause (DESIGN.md section 4, C10):
 import struct
 import errno
 import os
+import io
+import contextlib
 
 from hypothesis import strategies as st
 
 from ..runner import Outcome, Enum, Hyp, Custom, HarnessError, innermost_frames
 from ..ref import of10_bytes as R
+from ..ref import c10_nx as NX
 from ..sim import world as W
 from ..sim import loops as L
 from . import c02 as C2
@@ -50,6 +58,10 @@ RULE = ("a case is (side, victim item list with corruption ops, 1-2 sibling mess
         "optional socket fault script {peer: silent/more data/EOF/reset/timeout} x {send: ok/EAGAIN/EPIPE/ECONNRESET} x {same wake-up, "
         "recv first, send first} applied after a chosen chunk); "
         "optionally a second victim (item list, accept position, delay in rounds); "
+        "optionally an urgent-data script {round, reported with the round's in-band data / after it / with EOF}: the victim is put in "
+        "select's exceptional set (non-trivial when the condition was actually reported on a still-open victim); "
+        "optionally the receiver configuration 'nx' (controller with pox.openflow.nicira launched: vendor unpacker only / plus its "
+        "handlers) and items {nx: subtype} that are Nicira vendor messages; "
         "non-trivial when a fault script hits a victim that owes a reply, or two victims are both corrupted, or the controller "
         "disconnects a handshake-violating victim before its peer hangs up, or when the victim stream differs from well-formed traffic, at least one intact valid message follows the first "
         "corrupted item, and a sibling still has undelivered traffic when the corrupted bytes are processed (siblings always get a "
@@ -62,6 +74,13 @@ ASSUMPTIONS = [
   "what a handler does with a delivered message (replies, state) is not judged here (C09, C13); handler exceptions are the "
   "connection classes' own business and are swallowed by them",
   "line budget: 200000 + 400 x pending bytes per wake-up",
+  "an unpacker that looks at bytes beyond the declared length but whose result the receiver refuses (connection dropped, or error and "
+  "the DECLARED length skipped) has consumed nothing beyond the declared length; it is a violation when that result is delivered or "
+  "the read cursor follows it",
+  "a decoder that needs bytes to follow before it can classify a frame is compared with what it makes of the declared bytes followed "
+  "by 64 x 0x00 and by 64 x 0xff (both must agree with what was delivered)",
+  "urgent data: only the out-of-band flag is modelled (the in-band stream is unchanged, SO_OOBINLINE is off); the exceptional "
+  "condition persists until the socket is closed, since neither loop ever reads out-of-band data",
 ]
 EXHAUSTIVE_SCOPE = {
   "quick": "6 representative target messages per side (HELLO, ECHO_REQUEST, FEATURES_REPLY/FLOW_MOD, PACKET_IN/PACKET_OUT, PORT_STATUS/"
@@ -82,7 +101,14 @@ EXHAUSTIVE_SCOPE = {
            "recv first, send first} x victim first/last x 1-2 siblings. Two victims: every ordered pair of 6 offender kinds (bad "
            "version, length 0, length 5, unknown type, length shorter than the type's fixed part, inconsistent body) x 6 accept orders "
            "of (victim, second victim, sibling) x second victim's bytes in the same wake-up or the next x 2 stream shapes; every "
-           "clause is applied to each victim.",
+           "clause is applied to each victim. Exceptional conditions (urgent): 8 victim kinds per side (well-formed, truncated, the 6 "
+           "offender kinds) x urgent flag reported {with the round's in-band bytes, after them, with EOF} x victim accepted first/"
+           "middle/last of 3 and first/last of 2 x first/second round. Nicira configuration (controller, extension launched, "
+           "alternately with and without its handlers): for 5 Nicira vendor messages (ROLE_REPLY, PACKET_IN with nx_match and frame, "
+           "FLOW_REMOVED, ROLE_REQUEST, unknown subtype; thorough: 11) every header length 0..len+8, 0x7fff, 0xffff; 10 values of "
+           "each octet of the vendor id and subtype; every subtype code 0..24; every embedded length (match_len, each nx_match entry "
+           "length octet) at 0..value+8 and extremes; every truncation point followed by EOF / by more traffic; each with traffic "
+           "behind it in the same read and alone in its read; siblings carry well-formed Nicira messages.",
   "thorough": "the same for every message type of each direction (all stats kinds, queue properties) and for the 9 types of the "
               "opposite direction arriving at the wrong side",
 }
@@ -97,8 +123,89 @@ def setup():
     C2.setup()
     of_01, of, SW = C2._M
     import pox.lib.ioworker as IOW
-    _S = {"of_01": of_01, "of": of, "SW": SW, "IOW": IOW, "budget": L.LineBudget.get(),
+    import pox.openflow.nicira as nx            # after the world has booted (see pvf/README.md)
+    if L.LineBudget._instance is None:
+      # the Nicira unpackers run inside Connection.read when that component is loaded: they count towards the budget too
+      L.LineBudget._instance = L.LineBudget(modules=L.LineBudget.MODULES + ("pox.openflow.nicira",))
+    _S = {"of_01": of_01, "of": of, "SW": SW, "IOW": IOW, "nx": nx, "budget": L.LineBudget.get(),
           "ctl_class": _make_ctl_class(of_01), "worker_class": _make_worker_class(IOW)}
+
+
+def _build(spec):
+  """Reference-built message of a spec: OpenFlow 1.0 proper, or a Nicira vendor extension message ({"nx": subtype})."""
+  if "nx" in spec:
+    return NX.build(spec)
+  return R.build(spec)
+
+
+# --------------------------------------------------------------------------- receiver configuration: Nicira extensions
+
+_NX_MODES = ("unpackers", "handlers")
+_NX_ON = [False]
+_NX_EXPECT = {}
+
+
+def _nicira_on():
+  """What `pox.openflow.nicira` does when it is launched on a controller: the OFPT_VENDOR entry of of_01's table of
+  unpackers is replaced by one that decodes NXT_PACKET_IN and NXT_ROLE_REPLY itself, and the component registers with
+  the (fresh) core.  -> token for _nicira_off.  Re-entrant for the control run made from inside a case."""
+  nx, of_01 = _S["nx"], _S["of_01"]
+  nested = _NX_ON[0]
+  if nested:
+    of_01.unpackers[R.VENDOR] = nx._old_unpacker     # stock again; launch() below installs the extension anew
+    nx._old_unpacker = None
+  saved = of_01.unpackers[R.VENDOR]
+  if saved is nx._unpack_nx_vendor or nx._old_unpacker is not None:
+    raise HarnessError("the Nicira vendor unpacker of an earlier case is still installed")
+  nx.launch()
+  if of_01.unpackers[R.VENDOR] is not nx._unpack_nx_vendor or nx._old_unpacker is not saved:
+    raise HarnessError("launching pox.openflow.nicira did not install its vendor unpacker")
+  _NX_ON[0] = True
+  return (saved, nested)
+
+
+def _nicira_off(tok):
+  saved, nested = tok
+  if nested:
+    return                       # the enclosing case goes on with the extension installed
+  nx, of_01 = _S["nx"], _S["of_01"]
+  of_01.unpackers[R.VENDOR] = saved
+  nx._old_unpacker = None
+  _NX_ON[0] = False
+
+
+def _expect(data):
+  """What the receiver's own decoder makes of exactly these bytes (C2.expect); vendor messages are decoded by the
+  table in force (stock / Nicira) and cached per configuration."""
+  if not _NX_ON[0] or len(data) < 2 or data[1] != R.VENDOR:
+    return C2.expect(data)
+  data = bytes(data)
+  r = _NX_EXPECT.get(data, 0)
+  if r == 0:
+    try:
+      off, obj = _S["of_01"].unpackers[R.VENDOR](data, 0)
+      r = C2.sig(obj) if off == len(data) else None
+    except Exception:
+      r = None
+    if len(_NX_EXPECT) > 20000:
+      _NX_EXPECT.clear()
+    _NX_EXPECT[data] = r
+  return r
+
+
+def _expect_followed(data):
+  """A decoder that cannot decode the declared bytes when the buffer ends with them (it looks at what follows before it
+  decides what they are) may still make the same thing of them whatever follows: what it makes of exactly the declared
+  length when 64 octets of 0x00 and when 64 octets of 0xff follow -- if both agree -- or None."""
+  data = bytes(data)
+  got = []
+  for fill in (b"\x00", b"\xff"):
+    try:
+      off, obj = _S["of_01"].unpackers[data[1]](data + fill * 64, 0)
+      got.append(C2.sig(obj) if off == len(data) else None)
+    except Exception:
+      got.append(None)
+  return got[0] if got[0] == got[1] else None
 
 
 # --------------------------------------------------------------------------- taps
@@ -108,6 +215,8 @@ class TapSock(W.FakeSock):
     W.FakeSock.__init__(self, name)
     self.total_recv = 0
     self.tap = None
+    self.urgent = False           # the peer has sent TCP urgent (out-of-band) data that nobody has read: select() reports
+                                  # the socket in its exceptional set for as long as it is open
 
   def recv(self, n, flags=0):
     d = W.FakeSock.recv(self, n, flags)
@@ -322,7 +431,7 @@ def victim_stream(items):
       d = bytes(it["raw"])
       bad = True
     else:
-      good = R.build(it["m"]).data
+      good = _build(it["m"]).data
       d = apply_ops(good, it.get("ops") or [])
       bad = d != good
     if bad and first_bad is None:
@@ -458,6 +567,67 @@ def _fault_round(loop, side, conns, roles, r, faults, skip, unit, out):
   live = _drain(loop, conns, unit) if loop.alive else True
   v.sock.send_script = []
   return live
+
+
+_URG_WITH = ("data", "after", "eof")
+_BLAME = [None]                   # root cause named by the driver of a round, when it is not the header the receiver was working on
+
+
+def _xlisted(loop):
+  """what the loop currently asks select() to watch for exceptional conditions"""
+  if loop.select is None:
+    return []
+  return list(loop.select._args[2] or [])
+
+
+def _urgent_round(loop, side, conns, roles, r, urg, skip, unit, out):
+  """The round in which the victim's peer flags TCP urgent data (one out-of-band byte; the in-band stream is what it is):
+  select() reports the victim's socket in its EXCEPTIONAL set -- together with its being readable because the round's
+  in-band bytes ("data") or the peer's FIN ("eof") are pending in the same wake-up, or on its own after the in-band bytes
+  have been processed ("after").  The condition persists for as long as the socket stays open and watched.
+  -> still live?"""
+  v = conns["v"]
+  mode = urg.get("with", "data")
+  if mode not in _URG_WITH:
+    raise HarnessError("unknown urgent-data script %r" % (urg,))
+  for role in roles:
+    c = conns[role]
+    if r < len(c.chunks) and (role, r) not in skip and not c.sock.closed:
+      c.sock.feed(c.chunks[r])
+  if mode == "after":
+    if not _drain(loop, conns, unit):
+      return False
+  if not loop.alive:
+    return True
+  if v.sock.closed or v.handle not in loop.selected:
+    out.label("urgent:victim-already-closed")
+    return _drain(loop, conns, unit)
+  if mode == "eof":
+    v.sock.eof = True
+  v.sock.urgent = True
+  first = True
+  n = 0
+  while loop.alive and not v.sock.closed and v.handle in _xlisted(loop):
+    rl = loop.readable()
+    wl = loop.writable() if hasattr(loop, "writable") else []
+    if first:
+      first = False
+      out.label("urgent:reported")
+      out.label("urgent:%s" % ("also-readable" if v.handle in rl else "only-exceptional"))
+      out.label("urgent:%s-in-read-list" % ("alone" if len(rl) <= 1 else "first" if rl[0] is v.handle else "last" if rl[-1] is v.handle
+                                            else "middle" if v.handle in rl else "absent"))
+    loop.budget = (loop.budget[0], _limit(sum(len(c.sock.inbox) for c in conns.values())))
+    loop.select = loop._advance((list(rl), list(wl), [v.handle]))
+    n += 1
+    if not loop.alive:
+      _BLAME[0] = "exceptional-condition"      # the loop ended in the very wake-up that reported it
+    if n > 8:
+      out.label("urgent:ignored")
+      _BLAME[0] = "exceptional-condition"
+      return False               # woken up again and again by a condition it does nothing about
+  if first:
+    out.label("urgent:not-watched")
+  return _drain(loop, conns, unit) if loop.alive else True
 
 
 def _chunks(stream, cuts):
@@ -643,43 +813,58 @@ def run_case(case):
   out = Outcome()
   if case.get("k") == "load":
     return _run_load(case, out)
+  nxmode = case.get("nx") if case["side"] == "ctl" else None
+  if not nxmode:
+    return _run_scenario(case, out, None)
+  if nxmode not in _NX_MODES:
+    raise HarnessError("unknown Nicira configuration %r" % (nxmode,))
+  # pox.openflow.nicira print()s when it meets a subtype it has no unpacker for
+  with contextlib.redirect_stdout(io.StringIO()):
+    return _run_scenario(case, out, nxmode)
+
+
+def _run_scenario(case, out, nxmode):
   side = case["side"]
   direction = R.TO_CONTROLLER if side == "ctl" else R.TO_SWITCH
   out.label("side:" + side)
   out.label("kind:" + case.get("label", "?"))
-  vstream, intact, first_bad = victim_stream(case["victim"])
-  sib_specs = case["sib"]
-  if not 1 <= len(sib_specs) <= 2:
-    raise HarnessError("1 or 2 siblings")
-  sib_msgs = [[R.build(s).data for s in specs] for specs in sib_specs]
-  probe = R.build(PROBE).data
-  sib_expect = []
-  for ms in sib_msgs:
-    ex = [C2.expect(m) for m in ms] + [C2.expect(probe)]
-    if any(e is None for e in ex):
-      out.label("skipped:undecodable-sibling")
-      return out
-    sib_expect.append(ex)
-  intact_expect = [(s, d, C2.expect(d)) for s, d in intact]
-  second = case.get("victim2")
-  if second:
-    wstream, wintact, wfirst_bad = victim_stream(second)
-    wintact_expect = [(s, d, C2.expect(d)) for s, d in wintact]
-    out.label("victims:2")
-
   world = W.World()
   _SEQ[0] = 0
+  _BLAME[0] = None
   S = _S
   B = S["budget"]
   S["ctl_class"].ID = 0
   S["ctl_class"]._aborted_connections = 0
   loop = None
+  nx_tok = None
   try:
+    if nxmode:
+      nx_tok = _nicira_on()
+      out.label("config:nicira-" + nxmode)
+    vstream, intact, first_bad = victim_stream(case["victim"])
+    sib_specs = case["sib"]
+    if not 1 <= len(sib_specs) <= 2:
+      raise HarnessError("1 or 2 siblings")
+    sib_msgs = [[_build(s).data for s in specs] for specs in sib_specs]
+    probe = _build(PROBE).data
+    sib_expect = []
+    for ms in sib_msgs:
+      ex = [_expect(m) for m in ms] + [_expect(probe)]
+      if any(e is None for e in ex):
+        out.label("skipped:undecodable-sibling")
+        return out
+      sib_expect.append(ex)
+    intact_expect = [(s, d, _expect(d)) for s, d in intact]
+    second = case.get("victim2")
+    if second is not None:
+      wstream, wintact, wfirst_bad = victim_stream(second)
+      wintact_expect = [(s, d, _expect(d)) for s, d in wintact]
+      out.label("victims:2")
     n = 1 + len(sib_msgs)
     vpos = case.get("vpos", 0) % n
     roles = ["s%d" % i for i in range(len(sib_msgs))]
     roles.insert(vpos, "v")
-    if second:
+    if second is not None:
       roles.insert(case.get("wpos", 0) % (len(roles) + 1), "w")
     conns = {}
     if side == "ctl":
@@ -689,6 +874,10 @@ def run_case(case):
         con = loop.connect(sock)
         if con is None or not loop.alive:
           raise HarnessError("the controller loop did not accept a connection")
+        if nxmode == "handlers":
+          # what pox.openflow.nicira does to the connection of a switch that described itself as an Open vSwitch
+          con.handlers = S["nx"]._nicira_handlers.handlers
+          con._eventMixin_events.add(S["nx"].RoleReply)
         conns[role] = _Conn(role, sock, con._tap, con)
     else:
       loop = L.SwitchLoop(world, budget=(B, _limit(0)))
@@ -705,7 +894,7 @@ def run_case(case):
     v = conns["v"]
     v.stream = vstream
     v.chunks = _chunks(vstream, case.get("vcuts") or [])
-    if second:
+    if second is not None:
       w = conns["w"]
       w.stream = wstream
       # wdelay: how many rounds after the first victim's first bytes the second victim's arrive
@@ -727,15 +916,20 @@ def run_case(case):
     sib_pending_at_bad = False
     unit = 2048 if side == "ctl" else 8192
     live = True
-    faults = case.get("faults")
+    urg = case.get("urg")
+    faults = case.get("faults") if not urg else None
     skip = set()
+    if urg:
+      out.label("urgent:with-" + urg.get("with", "data"))
     if faults:
       out.label("fault:recv=%s" % faults.get("recv", "none"), "fault:send=%s" % faults.get("send", "ok"),
                 "fault:order=%s" % faults.get("order", "same"))
     for r in range(rounds):
       if bad_round is not None and r == bad_round:
         sib_pending_at_bad = True          # siblings always have a later chunk and/or the probe outstanding
-      if faults and r == min(int(faults.get("round", 0)), len(v.chunks) - 1):
+      if urg and r == min(int(urg.get("round", 0)), len(v.chunks) - 1):
+        live = _urgent_round(loop, side, conns, roles, r, urg, skip, unit, out)
+      elif faults and r == min(int(faults.get("round", 0)), len(v.chunks) - 1):
         live = _fault_round(loop, side, conns, roles, r, faults, skip, unit, out)
       else:
         for role in roles:
@@ -755,6 +949,7 @@ def run_case(case):
       live = _drain(loop, conns, unit)
     if not live:
       cause, pos = _cause(vstream, v.tap, _victim_head(side, v), direction)
+      cause = _BLAME[0] or cause
       out.fail("livelock", "the %s loop is woken up again and again by a socket it neither drains nor closes (readable now: %r; "
                "victim at stream offset %d, %s)" % (side, [getattr(getattr(x, "sock", getattr(x, "socket", None)), "name", "?")
                                                          for x in loop.readable()], pos, cause), side=side, cause=cause)
@@ -771,11 +966,18 @@ def run_case(case):
         # to a dead connection.  Only what was complete before the fault round must have been delivered.
         fl = sum(len(ch) for ch in v.chunks[:fr])
       must_until = fl if must_until is None else min(must_until, fl)
+    if urg:
+      # the receiver may drop the connection the moment select reports the exceptional condition: what is reported
+      # readable in that same wake-up is addressed to a connection that may be gone; what was processed in earlier
+      # wake-ups must have been delivered
+      ur = min(int(urg.get("round", 0)), len(v.chunks) - 1)
+      fl = sum(len(ch) for ch in v.chunks[:ur + (1 if urg.get("with") == "after" else 0)])
+      must_until = fl if must_until is None else min(must_until, fl)
     victims = {"v": (v, vstream, intact_expect, must_until)}
-    if second:
+    if second is not None:
       victims["w"] = (conns["w"], wstream, wintact_expect, wfirst_bad)
     _judge(out, case, side, direction, loop, conns, roles, victims, sib_expect, probe)
-    if second and first_bad is not None and wfirst_bad is not None:
+    if second is not None and first_bad is not None and wfirst_bad is not None:
       # two offenders: non-trivial when their corrupted bytes are processed in the same wake-up or in successive ones
       out.nontrivial = True
       out.label("victims:same-round" if int(case.get("wdelay", 0)) == (bad_round or 0) else "victims:different-rounds")
@@ -793,6 +995,8 @@ def run_case(case):
         out.nontrivial = True
     if faults and "fault:reply-owed" in out.labels and (faults.get("send", "ok") != "ok" or faults.get("recv", "none") not in ("none", "data")):
       out.nontrivial = True
+    if urg and "urgent:reported" in out.labels:
+      out.nontrivial = True
     if corrupted and not after:
       out.label("corruption:last")
     if not corrupted:
@@ -800,6 +1004,8 @@ def run_case(case):
   finally:
     if loop is not None:
       loop.close()
+    if nx_tok is not None:
+      _nicira_off(nx_tok)
     world.close()
   return out
 
@@ -831,6 +1037,7 @@ def _judge(out, case, side, direction, loop, conns, roles, victims, sib_expect, 
     if w.tap.events and (not tap.events or w.tap.seq > tap.seq):
       cause, pos = _cause(victims["w"][1], w.tap, _victim_head(side, w), direction)
 
+  cause = _BLAME[0] or cause
   # ---- (i), (vi), (ii): the loop itself
   if loop.exceeded:
     w = L.LineBudget.get().where
@@ -866,6 +1073,13 @@ def _judge(out, case, side, direction, loop, conns, roles, victims, sib_expect, 
       if case.get("_control"):
         out.label("control:sibling-closed:%d" % i)
         continue
+      if _handshake_refused(side, c):
+        # the controller itself gave this sibling up: its peer answered the handshake's barrier request with a barrier reply
+        # carrying an xid the controller never used on this connection (of_01 "failed connect").  Which xid the controller
+        # uses comes from a process-wide counter; that the sibling's blindly chosen xid does not match it is the sibling's own
+        # protocol violation, not an effect of the offender.
+        out.label("sibling-dropped-by-its-own-traffic")
+        continue
       if i in _closed_without_offender(case):
         # containment is a statement about the OFFENDER's effect: the receiver dropped this sibling because of the
         # sibling's own (well-formed) traffic -- e.g. a barrier reply with a foreign xid during the handshake --
@@ -887,15 +1101,32 @@ def _judge(out, case, side, direction, loop, conns, roles, victims, sib_expect, 
     _judge_victim(out, side, direction, vc, vs, ie, fb, selected, tag)
 
 
+def _handshake_refused(side, c):
+  """Did the controller disconnect this (sibling) connection because its stream carries, after a features reply, a barrier
+  reply whose xid is none of the barrier requests the controller sent on this very connection?"""
+  if side != "ctl" or not getattr(c.handle, "disconnected", False):
+    return False
+  asked = set(m[3] for m in R.split(bytes(c.sock.sent)).messages if m[2] == R.BARRIER_REQUEST)
+  seen_features = False
+  for (off, ln, t, xid, ver) in R.split(c.stream).messages:
+    if t == R.FEATURES_REPLY:
+      seen_features = True
+    elif t == R.BARRIER_REPLY and seen_features and xid not in asked:
+      return True
+  return False
+
+
 def _closed_without_offender(case):
   """control run (only made when a sibling was found closed): the same connections, siblings' traffic and
   segmentation, but the victim(s) send only their well-formed messages and no socket fault is injected.
   -> indices of the siblings the receiver closes anyway."""
   ctl = dict(case)
   ctl["_control"] = True
-  for k in ("victim2", "faults", "eof", "wcuts", "wdelay", "wpos"):
+  for k in ("faults", "urg", "eof", "wcuts"):
     ctl.pop(k, None)
   ctl["victim"] = [{"m": it["m"]} for it in case["victim"] if "m" in it]
+  if case.get("victim2") is not None:
+    ctl["victim2"] = [{"m": it["m"]} for it in case["victim2"] if "m" in it]      # the same connections exist
   o2 = run_case(ctl)
   return set(int(l.rsplit(":", 1)[1]) for l in o2.labels if l.startswith("control:sibling-closed:"))
 
@@ -911,9 +1142,11 @@ def _judge_victim(out, side, direction, v, vstream, intact_expect, first_bad, se
   delivered = {}
   closed = False
   last_start = -1
+  overrun = None                  # (start, declared) of a decode that came back with more than the declared length
   for e in tap.events:
     if e[0] == "C":
       closed = True
+      overrun = None
       continue
     if closed:
       out.fail("active-after-close", "the victim connection decoded/delivered at offset %d after it had been closed" % e[1],
@@ -922,6 +1155,13 @@ def _judge_victim(out, side, direction, v, vstream, intact_expect, first_bad, se
     if e[0] == "D":
       start, end = e[1], e[2]
       c_here = R.header_class(vstream, start, direction)
+      if overrun is not None:
+        if start != overrun[0] + overrun[1]:
+          out.fail("decode-beyond-declared", "decoding the frame at offset %d (declared length %d) consumed more than that, and the "
+                   "receiver went on at offset %d instead of dropping the connection or skipping the declared length" % (
+                       overrun[0], overrun[1], start), side=side, cause=R.header_class(vstream, overrun[0], direction))
+          break
+        overrun = None
       if start not in boundaries:
         out.fail("misframed", "a decode started at stream offset %d, which is not a boundary of the declared-length framing "
                  "(boundaries near: %r)" % (start, sorted(b for b in boundaries if abs(b - start) < 80)), side=side, cause=cause)
@@ -932,9 +1172,12 @@ def _judge_victim(out, side, direction, v, vstream, intact_expect, first_bad, se
       last_start = start
       f = by_start.get(start)
       if f is not None and end is not None and end - start > f[1]:
-        out.fail("decode-beyond-declared", "decoding the frame at offset %d (declared length %d) consumed %d bytes" % (
-            start, f[1], end - start), side=side, cause=c_here)
-        break
+        # an unpacker that reports more than the declared length has looked at the next message's bytes; that is the
+        # receiver's cue to refuse the frame.  It is a violation when the result is delivered (judged at the "X" event
+        # below) or when the read cursor follows the unpacker (judged at the next decode, above); a receiver that drops
+        # the connection, or answers and skips the DECLARED length, has consumed nothing beyond it.
+        overrun = (start, f[1])
+        out.label("unpacker-overran-declared-length")
     elif e[0] == "X":
       start, sg, end = e[1], e[2], e[3]
       f = by_start.get(start)
@@ -951,7 +1194,9 @@ def _judge_victim(out, side, direction, v, vstream, intact_expect, first_bad, se
         out.fail("bad-version-delivered", "a message of type %r carrying version 0x%02x (frame at offset %d) was delivered as an "
                  "OpenFlow 1.0 message instead of being refused" % (f[2], f[4], start), side=side, cause=c_here)
         break
-      own = C2.expect(vstream[start:start + f[1]])
+      own = _expect(vstream[start:start + f[1]])
+      if own is None:
+        own = _expect_followed(vstream[start:start + f[1]])
       if own != sg:
         out.fail("delivered-content", "the message delivered from the frame at offset %d (declared length %d) is not what those "
                  "bytes decode to on their own: delivered type %r xid %r, own decode %s" % (
@@ -1111,7 +1356,7 @@ def _scenario(side, label, bad_item, place, order, idx, eof=False, nsib=None, al
     c["eof"] = True
   # a quarter of the scenarios deliver the corrupted header in two reads, a quarter header and body separately
   seg = idx % 4
-  off = sum(len(R.build(it["m"]).data) for it in victim[:place])
+  off = sum(len(_build(it["m"]).data) for it in victim[:place])
   if alone:
     c["vcuts"] = [off, off + len(victim_stream([bad_item])[0])]
     c["label"] = label + "/alone"
@@ -1125,7 +1370,7 @@ def enum_header(tier):
   idx = 0
   for side in ("ctl", "sw"):
     for spec in targets(side, tier):
-      ln = len(R.build(spec).data)
+      ln = len(_build(spec).data)
       for place in (0, 1, 2):
         for order in (0, 1):
           for v in list(range(0, ln + 9)) + [0x7fff, 0xffff]:
@@ -1139,7 +1384,7 @@ def enum_header(tier):
       # type and version bytes: the place/order product is spread over the 256 values
       for v in range(256):
         for which, off in (("type", 1), ("version", 0)):
-          if v == R.build(spec).data[off]:
+          if v == _build(spec).data[off]:
             continue
           for rep in ((v % 2,) if tier == "quick" else (0, 1)):
             idx += 1
@@ -1151,7 +1396,7 @@ def enum_embedded(tier):
   idx = 0
   for side in ("ctl", "sw"):
     for spec in targets(side, tier):
-      built = R.build(spec)
+      built = _build(spec)
       for fl in built.fields:
         vals = list(range(0, fl["value"] + 9)) + [0x7fff, 0x8000, 0xffff]
         for v in vals:
@@ -1167,7 +1412,7 @@ def enum_trunc(tier):
   idx = 0
   for side in ("ctl", "sw"):
     for spec in targets(side, tier):
-      ln = len(R.build(spec).data)
+      ln = len(_build(spec).data)
       for keep in range(1, ln):
         for mode in ("eof", "more"):
           idx += 1
@@ -1179,13 +1424,13 @@ def enum_trunc(tier):
             yield _scenario(side, "trunc-more", {"m": spec, "ops": [{"op": "trunc", "keep": keep}]}, idx % 2, (idx // 2) % 2, idx, alone=True)
     # every truncation point of a 5-message stream (the stream simply stops, then EOF)
     five = [_valid(side, i) for i in (0, 3, 1, 6, 2)]
-    total = sum(len(R.build(s).data) for s in five)
+    total = sum(len(_build(s).data) for s in five)
     acc = 0
     for cut in range(1, total):
       items = []
       left = cut
       for s in five:
-        l = len(R.build(s).data)
+        l = len(_build(s).data)
         if left >= l:
           items.append({"m": s})
           left -= l
@@ -1215,7 +1460,7 @@ def enum_tails(tier):
       carry = (T.FLOW_MOD, T.PACKET_OUT, T.STATS_REQUEST, T.STATS_REPLY, T.QUEUE_GET_CONFIG_REPLY, T.FEATURES_REPLY)
       specs = [sp for sp in specs if sp["t"] in carry]
     for sp in specs:
-      built = R.build(sp)
+      built = _build(sp)
       ln = len(built.data)
       variants = [None] + [fl for fl in built.fields]
       for fl in variants:
@@ -1252,7 +1497,7 @@ def enum_handshake(tier):
           if cuts == "each":
             pos, cc = 0, []
             for it in items[:-1]:
-              pos += len(R.build(it["m"]).data)
+              pos += len(_build(it["m"]).data)
               cc.append(pos)
             c["vcuts"] = cc
           if eof:
@@ -1277,7 +1522,7 @@ def enum_oversize(tier):
       ]
       if side == "sw":
         po = _spec(T.PACKET_OUT, total - 40, 1)
-        while len(R.build(po).data) < total:
+        while len(_build(po).data) < total:
           po["n"] += 1
         kinds.append(("bad-actions-len", {"m": po, "ops": [{"op": "u16", "off": 14, "v": 0xfff8}]}))
       for name, item in kinds:
@@ -1359,6 +1604,98 @@ def enum_two_victims(tier):
               yield c
 
 
+def _nx_spec(sub, n=0, f=1, xid=None):
+  d = {"t": R.VENDOR, "nx": sub, "xid": xid if xid is not None else 0x400 + sub}
+  if n:
+    d["n"] = n
+  if f:
+    d["f"] = f
+  return d
+
+
+def nx_targets(tier):
+  """Nicira vendor messages a switch may send to a controller that has the extension loaded (and some it should not send)."""
+  N = NX
+  rep = [_nx_spec(N.NXT_ROLE_REPLY, 0, 1), _nx_spec(N.NXT_PACKET_IN, 5, 1), _nx_spec(N.NXT_FLOW_REMOVED, 2, 2),
+         _nx_spec(N.NXT_ROLE_REQUEST, 0, 2), _nx_spec(99, 6, 3)]
+  more = [_nx_spec(N.NXT_PACKET_IN, 0, 4), _nx_spec(N.NXT_PACKET_IN, 14, 3), _nx_spec(N.NXT_FLOW_REMOVED, 0, 0),
+          _nx_spec(N.NXT_SET_PACKET_IN_FORMAT, 0, 1), _nx_spec(N.NXT_FLOW_MOD_TABLE_ID, 0, 1), _nx_spec(N.NXT_ROLE_REPLY, 0, 2)]
+  return rep if tier == "quick" else rep + more
+
+
+def enum_nicira(tier):
+  """The controller with the Nicira extension component loaded (its vendor unpacker installed in of_01's table; with and
+  without the extension's handlers on the connections): every single-field corruption of every Nicira message kind --
+  header length 0..len+8 and extremes, every octet of the vendor id and subtype, every subtype code 0..24 over the body of
+  another, every embedded length (match_len, each nx_match entry's length octet) at 0..value+8 and extremes, every
+  truncation point -- between / after valid traffic, with traffic behind it in the same read and alone in its read."""
+  idx = [0]
+
+  def sc(label, item, alone=False, eof=False, place=None):
+    idx[0] += 1
+    i = idx[0]
+    c = _scenario("ctl", "nx:" + label, item, (i % 3) if place is None else place, (i // 3) % 2, i, eof=eof, alone=alone)
+    c["nx"] = _NX_MODES[(i // 2) % 2]
+    c["sib"][0].append(_nx_spec(NX.NXT_ROLE_REPLY, 0, i % 3, xid=0x31))
+    if len(c["sib"]) > 1:
+      c["sib"][1].insert(1, _nx_spec(NX.NXT_PACKET_IN, 3 + i % 4, i % 5, xid=0x32))
+    return c
+  for spec in nx_targets(tier):
+    built = _build(spec)
+    ln = len(built.data)
+    for mode in (0, 1):
+      yield sc("well-formed", {"m": spec}, alone=bool(mode))
+    for v in list(range(0, ln + 9)) + [0x7fff, 0xffff]:
+      if v == ln:
+        continue
+      for alone in (False, True):
+        yield sc("length", {"m": spec, "ops": [{"op": "len", "v": v}]}, alone=alone)
+    for off in range(8, 16):
+      for v in (0, 1, 0x20, 0x23, 10, 11, 14, 17, 0x80, 0xff):
+        if v != built.data[off]:
+          yield sc("vendor-id" if off < 12 else "subtype", {"m": spec, "ops": [{"op": "u8", "off": off, "v": v}]}, alone=bool(v % 2))
+    for v in range(0, 25):
+      if v != built.data[15]:
+        yield sc("subtype", {"m": spec, "ops": [{"op": "u8", "off": 15, "v": v}]}, alone=not (v % 2))
+    for fl in built.fields:
+      if fl["size"] == 2:
+        vals, op = list(range(0, fl["value"] + 9)) + [0x7fff, 0x8000, 0xffff], "u16"
+      else:
+        vals, op = list(range(0, fl["value"] + 9)) + [0x7f, 0x80, 0xff], "u8"
+      off = fl["off"]
+      for v in vals:
+        if v == fl["value"]:
+          continue
+        for alone in (False, True):
+          yield sc("embedded", {"m": spec, "ops": [{"op": op, "off": off, "v": v}]}, alone=alone)
+    for keep in range(1, ln):
+      yield sc("trunc-eof", {"m": spec, "ops": [{"op": "trunc", "keep": keep}]}, eof=True, place=2)
+      yield sc("trunc-more", {"m": spec, "ops": [{"op": "trunc", "keep": keep}]}, place=idx[0] % 2)
+      yield sc("trunc-more", {"m": spec, "ops": [{"op": "trunc", "keep": keep}]}, place=idx[0] % 2, alone=True)
+
+
+def enum_urgent(tier):
+  """Exceptional conditions: the victim's peer flags TCP urgent data, so select() reports the victim's socket in its
+  exceptional set -- in the wake-up in which its in-band bytes (well-formed, truncated or malformed) or its FIN are
+  readable too, or on its own afterwards; victim accepted first / in the middle / last; in its first or second round."""
+  idx = 0
+  T = R
+  for side in ("ctl", "sw"):
+    big = _spec(T.PACKET_IN, 30) if side == "ctl" else _spec(T.FLOW_MOD, 2)
+    kinds = [("well-formed", {"m": _valid(side, 2)}, False),
+             ("truncated", {"m": big, "ops": [{"op": "trunc", "keep": 20}]}, True)] + [(n, it, False) for n, it in offenders(side)]
+    for name, item, tail in kinds:
+      for mode in _URG_WITH:
+        for nsib, vpos in ((2, 0), (2, 1), (2, 2), (1, 0), (1, 1)):
+          for rnd in (0, 1):
+            idx += 1
+            a, b = {"m": _valid(side, idx)}, {"m": _valid(side, idx + 3)}
+            victim = [a, b, dict(item)] if tail else [a, dict(item), b]
+            sib = [[_valid(side, idx + 1 + 2 * j), _valid(side, idx + 4 + j), _valid(side, idx + 6 + j)] for j in range(nsib)]
+            yield {"side": side, "label": "urgent:" + name, "victim": victim, "sib": sib, "vpos": vpos,
+                   "vcuts": [len(victim_stream([a])[0])], "urg": {"round": rnd, "with": mode}}
+
+
 # --------------------------------------------------------------------------- Hypothesis
 
 @st.composite
@@ -1400,17 +1737,27 @@ def case_strategy(draw, tier):
   bad_at = set(draw(st.lists(st.integers(0, nv - 1), min_size=1, max_size=nbad)))
   victim = []
   any_types = draw(st.integers(0, 4)) == 0
+  # receiver configuration: a controller with the Nicira extension loaded sees Nicira vendor messages among the traffic
+  nxmode = draw(st.sampled_from([None, None, None, "unpackers", "handlers"])) if side == "ctl" else None
+  nxs = st.builds(lambda sub, n, f, xid: _nx_spec(sub, n, f, xid),
+                  st.one_of(st.sampled_from(NX.TO_CONTROLLER * 2 + NX.TO_SWITCH), st.integers(0, 30)),
+                  st.integers(0, 14), st.integers(0, 40), st.integers(0, 0xffffffff))
   for i in range(nv):
     if i in bad_at:
       if draw(st.integers(0, 3)) == 0:
         victim.append({"raw": draw(_raw(side))})
         continue
       other = "sw" if side == "ctl" else "ctl"
-      spec = draw(C2.spec_strategy(other if any_types and draw(st.booleans()) else side, small=True))
+      if nxmode and draw(st.integers(0, 2)) > 0:
+        spec = draw(nxs)
+      else:
+        spec = draw(C2.spec_strategy(other if any_types and draw(st.booleans()) else side, small=True))
       spec.pop("ver", None)
-      ln = len(R.build(spec).data)
+      ln = len(_build(spec).data)
       ops = draw(st.lists(_op(ln), min_size=1, max_size=3))
       victim.append({"m": spec, "ops": ops})
+    elif nxmode and draw(st.integers(0, 2)) == 0:
+      victim.append({"m": draw(nxs)})
     else:
       victim.append({"m": draw(C2.spec_strategy(side, small=True))})
       victim[-1]["m"].pop("ver", None)
@@ -1422,6 +1769,10 @@ def case_strategy(draw, tier):
       m.pop("ver", None)
     sib.append(ms)
   case = {"side": side, "label": "mutation", "victim": victim, "sib": sib, "vpos": draw(st.integers(0, nsib))}
+  if nxmode:
+    case["nx"] = nxmode
+    if draw(st.booleans()):
+      sib[0].append(draw(nxs))
   if draw(st.integers(0, 3)) == 0:
     name, item = draw(st.sampled_from(offenders(side)))
     v2 = [dict(item)]
@@ -1432,7 +1783,7 @@ def case_strategy(draw, tier):
       v2.append({"m": draw(C2.spec_strategy(side, small=True))})
       v2[-1]["m"].pop("ver", None)
     if draw(st.integers(0, 2)) == 0:
-      ln = len(R.build(item["m"]).data)
+      ln = len(_build(item["m"]).data)
       v2[v2.index(item) if item in v2 else 0] = {"m": item["m"], "ops": draw(st.lists(_op(ln), min_size=1, max_size=2))}
     case["victim2"] = v2
     case["wpos"] = draw(st.integers(0, nsib + 1))
@@ -1453,9 +1804,12 @@ def case_strategy(draw, tier):
       case["vcuts"] = sorted(set(draw(st.lists(st.integers(1, total - 1), min_size=0, max_size=4))))
   if draw(st.integers(0, 3)) == 0:
     case["eof"] = True
-  if draw(st.integers(0, 3)) == 0:
+  what = draw(st.integers(0, 7))
+  if what < 2:
     case["faults"] = {"round": draw(st.integers(0, 3)), "recv": draw(st.sampled_from(_RECV_FAULTS)),
                       "send": draw(st.sampled_from(_SEND_FAULTS)), "order": draw(st.sampled_from(_ORDERS))}
+  elif what == 2:
+    case["urg"] = {"round": draw(st.integers(0, 3)), "with": draw(st.sampled_from(_URG_WITH))}
   return case
 
 
@@ -1472,6 +1826,8 @@ def plan(tier):
     Enum("faults", lambda: enum_faults(tier), shards=16),
     Enum("two-victims", lambda: enum_two_victims(tier), shards=16),
     Enum("sustained-load", lambda: enum_load(tier), shards=4 if tier == "quick" else 16),
+    Enum("nicira", lambda: enum_nicira(tier), shards=16),
+    Enum("urgent", lambda: enum_urgent(tier), shards=8),
     Hyp("mutation", lambda: case_strategy(tier), examples=n, shards=16),
     # coverage-guided (atheris/libFuzzer) campaigns on both loops; skipped with a note if atheris is missing
     Custom("atheris", c10_ofstream.driver(2000 if tier == "quick" else 130000), shards=2 if tier == "quick" else 16),
